@@ -44,12 +44,48 @@ def _fixed_findings():
 
 
 FIX_C = "DC12c" in _fixed_findings()  # set-memory-space only re-uses a cast that dominates the use (fixes/FC12c-…)
+FIX_E = "DC12e" in _fixed_findings()  # ApplyLayoutCastSubviewGlobal: subview offsets at tile boundaries (fixes/FC12e-…)
+FIX_F = "DC12f" in _fixed_findings()  # … and the tile divides the global (fixes/FC12e-… = FC09a + offsets)
 FIX_D = "DC12d" in _fixed_findings()  # transform_constant refuses layouts with an offset (fixes/FC12d-…)
 
 T1 = 'memref<64xi32, "L1">'
 T3 = 'memref<64xi32, "L3">'
 T1L = 'memref<64xi32, #tsl.tsl<[4, 16] -> (16, 1)>, "L1">'
 ELTS = {"i8": 8, "i16": 16, "i32": 32, "i64": 64}
+
+
+# ------------------------------------------------------------------------------------------------
+# running the real passes: one cached context per process, pass objects applied in place (the snax-opt front end with
+# temporary files costs ~4x as much per case); the module is verified after every pass as snax-opt does, and
+# `dominance_ok` replaces the check that re-parsing the printed module used to give
+# ------------------------------------------------------------------------------------------------
+_CTX = None
+
+
+def _ctx():
+    global _CTX
+    if _CTX is None:
+        _CTX = snaxrun.fresh_ctx()
+    return _CTX
+
+
+def fparse(src):
+    from xdsl.parser import Parser
+    return Parser(_ctx(), src).parse_module()
+
+
+def fpasses(src, names):
+    """parse `src`, apply the named passes of the real code in place, verify after each; returns the module"""
+    from snaxc.transforms.realize_memref_casts import RealizeMemrefCastsPass
+    from snaxc.transforms.set_memory_space import SetMemorySpace
+    table = {"realize-memref-casts": RealizeMemrefCastsPass, "set-memory-space": SetMemorySpace}
+    m = fparse(src)
+    for n in names.split(","):
+        table[n]().apply(_ctx(), m)
+        m.verify()
+    if not dominance_ok(m):
+        raise ValueError("an operand is used outside the region that defines it")
+    return m
 
 
 # ------------------------------------------------------------------------------------------------
@@ -285,8 +321,7 @@ def impl_glob(case):
     import warnings
     with warnings.catch_warnings():
         warnings.simplefilter("ignore")
-        out = snaxrun.run_passes(glob_src(case), "realize-memref-casts")
-    m = snaxrun.parse(out)
+        m = fpasses(glob_src(case), "realize-memref-casts")
     m.verify()
     res = {"out": None}
     gmem = {}
@@ -546,12 +581,12 @@ def impl_memspace(case):
     from xdsl.dialects import func, linalg, memref
     src = memspace_src(case)
     try:
-        snaxrun.parse(src).verify()
+        fparse(src).verify()
     except Exception as e:  # the generator produced an invalid input: not the code's problem
         return {"invalid_input": type(e).__name__}
     from snaxc.transforms.set_memory_space import SetMemorySpace
-    m = snaxrun.parse(src)
-    SetMemorySpace().apply(snaxrun.fresh_ctx(), m)
+    m = fparse(src)
+    SetMemorySpace().apply(_ctx(), m)
     f = [o for o in m.walk() if isinstance(o, func.FuncOp)][0]
     operands = {}
     for op in m.walk():
@@ -864,13 +899,12 @@ def impl_realize(case):
     from snaxc.dialects.snax import LayoutCast
     src = realize_src(case)
     try:
-        before = snaxrun.parse(src)
+        before = fparse(src)
         before.verify()
     except Exception as e:
         return {"invalid_input": f"{type(e).__name__}: {str(e)[:100]}"}
     try:
-        after_txt = snaxrun.run_passes(src, "realize-memref-casts")
-        after = snaxrun.parse(after_txt)
+        after = fpasses(src, "realize-memref-casts")
         after.verify()
     except Exception as e:  # the input verified: the pass broke the IR (or crashed) on a program of the quantifier
         return {"per": [], "sem": {"trips": [], "what": f"the IR is invalid ({type(e).__name__}: {str(e)[:120]})"},
@@ -1088,8 +1122,8 @@ def pipe_cast_assignment(case, src):
     from xdsl.dialects import func, linalg, memref, scf
     from xdsl.ir import BlockArgument
     from snaxc.transforms.set_memory_space import SetMemorySpace
-    m = snaxrun.parse(src)
-    SetMemorySpace().apply(snaxrun.fresh_ctx(), m)
+    m = fparse(src)
+    SetMemorySpace().apply(_ctx(), m)
     ids = pipe_ids(case)
     f = [o for o in m.walk() if isinstance(o, func.FuncOp)][0]
     pos = {}
@@ -1131,7 +1165,7 @@ def pipe_cast_assignment(case, src):
 def impl_pipe(case):
     src = pipe_src(case)
     try:
-        before = snaxrun.parse(src)
+        before = fparse(src)
         before.verify()
     except Exception as e:
         return {"invalid_input": f"{type(e).__name__}: {str(e)[:100]}"}
@@ -1142,7 +1176,7 @@ def impl_pipe(case):
 
 def impl_pipe_sem(case, src, before):
     try:
-        after = snaxrun.parse(snaxrun.run_passes(src, "set-memory-space,realize-memref-casts"))
+        after = fpasses(src, "set-memory-space,realize-memref-casts")
         after.verify()
         if not dominance_ok(after):
             raise ValueError("an operand is used outside the region that defines it")
@@ -1296,10 +1330,10 @@ def impl_dyn(case):
     from xdsl.dialects import arith, func, linalg, memref
     src = dyn_src(case)
     try:
-        snaxrun.parse(src).verify()
+        fparse(src).verify()
     except Exception as e:
         return {"invalid_input": f"{type(e).__name__}: {str(e)[:100]}"}
-    m = snaxrun.parse(snaxrun.run_passes(src, "realize-memref-casts"))
+    m = fpasses(src, "realize-memref-casts")
     m.verify()
     f = [o for o in m.walk() if isinstance(o, func.FuncOp)][0]
     rt = list(case["rt"])
@@ -1486,12 +1520,12 @@ def impl_subg(case):
     import warnings
     src = subg_src(case)
     try:
-        snaxrun.parse(src).verify()
+        fparse(src).verify()
     except Exception as e:
         return {"invalid_input": f"{type(e).__name__}: {str(e)[:100]}"}
     with warnings.catch_warnings():
         warnings.simplefilter("ignore")
-        m = snaxrun.parse(snaxrun.run_passes(src, "realize-memref-casts"))
+        m = fpasses(src, "realize-memref-casts")
     m.verify()
     res = {"fires": False, "global_ts": None, "global_data": None, "problems": [], "consumers": {}}
     gmem, gtype = {}, {}
@@ -1732,7 +1766,8 @@ class C12(Prop):
             return [{"fn": "c12.standIn", "args": {"shape": case["shape"], "rt": case["rt"]}}]
         if k == "subg":
             return [{"fn": "c12.subviewGlobal", "args": {"layout": {"ts": case["ts"], "offset": 0}, "shape": case["shape"],
-                                                         "data": case["data"], "refuse_offset": FIX_D}}]
+                                                         "data": case["data"], "refuse_offset": FIX_D,
+                                                         "offs": case["subs"][0]["off"], "fix_whole": FIX_F, "fix_aligned": FIX_E}}]
         if k in ("const", "glob"):
             return [{"fn": "c12.transformConstant", "args": {"data": case["data"], "refuse_offset": FIX_D,
                                                              "layout": {"ts": case["ts"], "offset": case["offset"]}}}]
@@ -1769,7 +1804,7 @@ class C12(Prop):
                 return {"model_error": a["err"]}
             r = a["ok"]
             no = {"fires": False, "global_ts": None, "global_data": None}
-            if not subg_fires_pre(case):
+            if not subg_fires_pre(case) or r.get("guard") is False:
                 return no
             if case["data"] is None:
                 return {"fires": True, "global_ts": r["layout"], "global_data": "uninitialised"}
